@@ -36,6 +36,11 @@ def check(ctx: Ctx) -> None:
         # `if X is not None: X.set()` -- the test is vacuous on its false edge
         for t in cfg.nodes:
             if t.kind == "test" and EVT in unparse(t.ast) and "None" in unparse(t.ast):
+                # vacuous only if the *whole* condition is "the event exists"
+                f = Facts(repo, fi, {})
+                f.assume(t.ast, True)
+                if set(f.env.items()) != {(f"self.{EVT} is None", False)}:
+                    continue
                 tru = [m for (m, lab) in cfg.succ[t.id] if lab == "true"]
                 if tru and all(m in through for m in tru):
                     through.add(t.id)
@@ -148,7 +153,7 @@ def check(ctx: Ctx) -> None:
         ob.require(n_false >= 1, "no fall-through path found in _try_send_to_primary_thread")
         # writer census: who stores None into the mailbox
         writers = []
-        for q, f in repo.funcs.items():
+        for f in repo.scan_funcs():
             for n in repo.own_nodes(f):
                 if isinstance(n, ast.Assign):
                     for t in n.targets:
